@@ -33,6 +33,8 @@ def file_requests(rng):
     hdrs = [("Range", rh)] if rh is not None else []
     if rng.random() < 0.35:
         hdrs.append(("If-Range", rng.choice(['"stale-etag"', "Wed, 21 Oct 2015 07:28:00 GMT", "", "garbage", 'W/"x"'])))
+    if rng.random() < 0.2:
+        hdrs.append(rng.choice([("If-None-Match", "*"), ("If-None-Match", '"x", W/"y"'), ("If-Modified-Since", "Fri, 01 Jan 2100 00:00:00 GMT"), ("If-Match", "*")]))
     return hdrs
 
 
